@@ -21,17 +21,21 @@ skips = {
         "C18/m2": "not confirmed: with the patch 3 stable baseline tests fail in this sandbox (the GDA runner shares one Context between goroutines)",
         "C04/m1": "manifests only for a target exponent of MaxInt32, outside the package limits (out of the property's domain)",
         "C17/m1": "manifests only for Exponent == MinInt32, outside the package limits (out of the property's domain)"},
+    "-r6": {},
     "-r3": {"C03/m2": "no longer demonstrable: it replaced Ln's last ErrDecimal step and error test by a direct call, losing an error recorded by a trapped Halley step; since the fix 'the inner steps of Sqrt, Ln and Exp are not subject to the caller's exponent range and traps' no step traps for an operand inside the limits; the dropped error test is still reported by C02.R3/C03.R5 (kept in the self-test as exseed_C03_m2_r3)",
             "C12/m2": "no longer demonstrable: same edit as C03-m2-r3 (kept in the self-test as exseed_C12_m2_r3)",
             "C03/m1": "obsolete: it cleared Inexact|Rounded in the traps of Sqrt's working context, which was a copy of the caller's and also made the closing error; since the fix 'the inner steps of Sqrt, Ln and Exp are not subject to the caller's exponent range and traps' the working context is a copy of BaseContext (which traps neither) and the closing goError uses the caller's context, so the edit is behaviour-preserving (kept as the benign variant benign_agent8_C03_m1_r3; it was detected by C03.R4 while it broke the property)"},
-    "-r5": {"C06/m1": "obsolete: it handled only SystemOverflow after Quo's setExponent; since the fix 'the lower package limit is on the adjusted exponent, not on the exponent' setExponent has no System-underflow return left and the edit is behaviour-preserving (kept as the benign variant benign_agent8_C06_m1_r5; it was detected by C06.R10 while it broke the property)",
+    "-r5": {"C10/m2": "obsolete: an off-by-one (or a test before the operands are ordered) at upscale's exponent-gap limit of 100000, which refused gaps that operands inside the limits have; since the fix 'Add, Sub, Rem and QuoInteger accept every exponent gap of operands within the limits' the limit is 300000, above every gap such operands can have, and the same slip at the new limit is behaviour-preserving inside the properties' domain (kept as the benign variant benign_agent8_C10_m2_r5; it was detected by C10.R3 while it broke the property)",
+            "C06/m1": "obsolete: it handled only SystemOverflow after Quo's setExponent; since the fix 'the lower package limit is on the adjusted exponent, not on the exponent' setExponent has no System-underflow return left and the edit is behaviour-preserving (kept as the benign variant benign_agent8_C06_m1_r5; it was detected by C06.R10 while it broke the property)",
             "C03/m2": "obsolete: same edit as C03-m1-r3 (Sqrt's working context no longer carries the caller's traps; kept as the benign variant benign_agent8_C03_m2_r5; it was detected by C03.R4 while it broke the property)",
             "C20/m1": "obsolete: it cleared Overflow after the infinity had been stored in exponentLimit (an Infinity with Inexact only); ported to today's tree the same slip fails 17 tests of the pinned suite, which reach exponentLimit since Round discards any number of digits and the lower package limit is on the adjusted exponent (it was detected by C02.R6 while it survived)",
             "C20/m2": "obsolete: it moved Mul's `d.Negative = neg` behind Mul's own setExponent call (the subnormal rounding then used the destination's previous sign); that call is gone since the fix 'Mul checks the exponent range after rounding, not before', and ported to the new Mul (sign set after the rounding) the same slip fails 30 tests of the pinned suite (it was detected by C01.R1/C06.R1 while it applied)",
             "C01/m1": "not confirmed: with the patch one stable baseline test (TestGDA/base/emax314) is skipped by the harness ('exponent out of range') instead of passed; the off-by-one at adjusted exponent == MaxExponent was detected by C04.R6 when tried",
             "C09/m1": "not confirmed: same off-by-one (exponent sum == MaxExponent), same stable test skipped instead of passed; detected by C04.R6/C13.R5 when tried",
             "C13/m1": "not confirmed: with the patch four stable baseline tests are skipped instead of passed; the use of the unresolved digit count was detected by C07.R8 when tried"},
-    "-r4": {"C03/m1": "obsolete: same edit as C03-m1-r3 (Sqrt's working context no longer carries the caller's traps; kept as the benign variant benign_agent8_C03_m1_r4; it was detected by C03.R4 while it broke the property)",
+    "-r4": {"C10/m2": "obsolete: an off-by-one (or a test before the operands are ordered) at upscale's exponent-gap limit of 100000, which refused gaps that operands inside the limits have; since the fix 'Add, Sub, Rem and QuoInteger accept every exponent gap of operands within the limits' the limit is 300000, above every gap such operands can have, and the same slip at the new limit is behaviour-preserving inside the properties' domain (kept as the benign variant benign_agent8_C10_m2_r4; it was detected by C10.R3 while it broke the property)",
+            "C20/m1": "obsolete: an off-by-one (or a test before the operands are ordered) at upscale's exponent-gap limit of 100000, which refused gaps that operands inside the limits have; since the fix 'Add, Sub, Rem and QuoInteger accept every exponent gap of operands within the limits' the limit is 300000, above every gap such operands can have, and the same slip at the new limit is behaviour-preserving inside the properties' domain (kept as the benign variant benign_agent8_C20_m1_r4; it was detected by C10.R3 while it broke the property)",
+            "C03/m1": "obsolete: same edit as C03-m1-r3 (Sqrt's working context no longer carries the caller's traps; kept as the benign variant benign_agent8_C03_m1_r4; it was detected by C03.R4 while it broke the property)",
             "C01/m2": "obsolete: it skipped Mul's rounding pass for short coefficients 'because setExponent had already range checked'; Mul no longer calls setExponent itself (fix 'Mul checks the exponent range after rounding, not before'), and ported to the new Mul the same slip fails 71 tests of the pinned suite (it was detected by C01.R3 while it applied)",
             "C05/m2": "obsolete: it moved QuoInteger's sign computation after the destination writes, which changed the result only through the sign stamped on the DivisionImpossible NaN (d.Set(decimalNaN) had cleared an aliased x.Negative); after the fix 'QuoInteger's DivisionImpossible result is NaN, not -NaN' that path returns before the sign is read and the change is behaviour-preserving (kept as the benign variant benign_agent5_C05_m2_r4; it was detected by C05.R1 while it broke the property)",
             "C11/m2": "obsolete: it mutated the exactness test of the old Cbrt tail; ported to the rewritten Cbrt (fix 'Cbrt is correctly rounded in every rounding mode') the same slip fails 9 tests of the pinned suite, so it is no longer a surviving mutant (it was detected by C11.R2 while it applied)",
